@@ -75,8 +75,10 @@ class BodyGen:
             return f"{v}.{self.fresh('a')}.{self.fresh('a')}"
         if k < 0.8:
             return f"{v}[{r.choice(['0', repr('k'), self.var() + '.' + self.fresh('i')])}]"
-        if k < 0.9:
+        if k < 0.86:
             return r.choice(["1", "'s'", "None", "True", "b'x'", "1.5"])
+        if k < 0.92:
+            return f"{v}.{self.fresh('a')}[{r.choice(['0', self.var()])}][{r.choice(['1', self.var() + '.' + self.fresh('i')])}]"
         return f"{v}.{self.fresh('m')}()"
 
     def expr(self, d=0):
@@ -89,6 +91,7 @@ class BodyGen:
             "dict", "listcomp", "setcomp", "dictcomp", "genexp", "lambda", "fstring", "walrus", "slice", "getattr",
             "setattr", "hasattr", "delattr", "sorted", "defaultdict", "cls", "lamcall", "helper", "starcall", "await_",
             "yield_", "chain", "callcall", "subcall", "static", "ospath", "nested_getattr", "builtin", "kwcall",
+            "kw_after_unpack", "like_namedtuple",
         ]
         k = r.choice(kinds)
         v = self.var()
@@ -185,6 +188,10 @@ class BodyGen:
             return f"{r.choice(['max', 'dict', 'enumerate', 'zip'])}({E()}, {E()})"
         if k == "kwcall":
             return f"helper(z={E()}, w={E()})"
+        if k == "kw_after_unpack":
+            return f"helper({E()}, **{v}.{self.fresh('a')}, w={E()})"
+        if k == "like_namedtuple":
+            return r.choice([f"row_to_namedtuple({E()})", f"{v}.as_namedtuple({E()}, {E()})"])
         raise AssertionError(k)
 
     def target(self, d=0):
@@ -198,8 +205,10 @@ class BodyGen:
             return n
         if k < 0.7:
             return f"{v}.{self.fresh('s')}"
-        if k < 0.8:
+        if k < 0.78:
             return f"{v}[{self.atom()}]"
+        if k < 0.82:
+            return f"{v}.{self.fresh('s')}[{self.atom()}][{self.atom()}]"
         if k < 0.9 and d < 1:
             return f"({self.target(d + 1)}, {self.target(d + 1)})"
         if k < 0.95 and d < 1:
@@ -261,8 +270,11 @@ class BodyGen:
             t = r.choice([self.fresh("inst"), f"{self.var()}.{self.fresh('inst')}"])
             if "." not in t:
                 self.locals.append(t)
+            v = self.var()
             return [r.choice([f"{t} = Cls({E()}, {E()})", f"{t} = Bare()", f"{t}: int = Cls({E()}, k={E()})",
-                              f"{t} = NT({E()}, {E()})", f"{t} = Cls(*{self.atom()})"])]
+                              f"{t} = NT({E()}, {E()})", f"{t} = Cls(*{self.atom()})",
+                              f"{v} = Cls({v}, {E()})", f"{v}.{t} = NT({E()}, {v}.{t})",
+                              f"{t} = {v}.as_namedtuple({E()})", f"{t} = row_to_namedtuple({E()}, {E()})"])]
         if k == "lamassign":
             g = self.fresh("g")
             w = self.fresh("w")
@@ -286,7 +298,8 @@ class BodyGen:
         if k == "with":
             return [r.choice([f"with {E()} as {self.target()}:", f"with {E()}:", f"with {E()} as {self.target()}, {E()}:"])] + ind(self.block(d + 1))
         if k == "asyncwith":
-            return [f"async with {E()} as {self.target()}:"] + ind(self.block(d + 1))
+            return [r.choice([f"async with {E()} as {self.target()}:", f"async with {E()}:", f"async with {E()}, {E()}:",
+                              f"async with {E()} as {self.target()}, {E()}:"])] + ind(self.block(d + 1))
         if k == "try":
             e = self.fresh("exc")
             return (["try:"] + ind(self.block(d + 1)) + [f"except {self.atom()} as {e}:"] + ind([f"{e}.{self.fresh('a')}"] + self.block(d + 1, 1))
